@@ -114,6 +114,7 @@ def corruptions(rng, frame, quick):
         out.append(('subst', f))
         out.append(('delete', frame[:i] + frame[i + 1:]))
         out.append(('insert', frame[:i] + [rng.randrange(256)] + frame[i:]))
+        out.append(('insert-ws', frame[:i] + [rng.choice([0x09, 0x0A, 0x0B, 0x0C, 0x0D, 0x20, 58, 0x7B, 0x7D, 0x30, 0x00, 0xFF])] + frame[i:]))
         out.append(('truncate', frame[:i]))
     return out
 
